@@ -76,9 +76,15 @@ def package_roots(repo):
 class Finder:
     def __init__(self, roots):
         self.roots = roots
+        self.cache = {}
 
     def path_of(self, name):
-        """(file, is_package) of a bs4/soupsieve module, or None."""
+        """(file, is_package) of a bs4/soupsieve module, or None (cached: the file system is asked once per name)."""
+        if name not in self.cache:
+            self.cache[name] = self._path_of(name)
+        return self.cache[name]
+
+    def _path_of(self, name):
         parts = name.split('.')
         if parts[0] not in self.roots:
             return None
@@ -106,6 +112,11 @@ def dotted(e):
         parts.append(e.id)
         return list(reversed(parts))
     return None
+
+
+def apply_decorator(d):
+    """`@d` applied to a definition is the call `d(<the definition>)`."""
+    return ast.copy_location(ast.Call(func=d, args=[ast.copy_location(ast.Constant(value=None), d)], keywords=[]), d)
 
 
 def static_test(test):
@@ -137,9 +148,14 @@ class Refs:
 
     def __init__(self):
         self.called_names = set()
+        self.arg_names = set()
         self.taken_names = set()
-        self.called_attrs = set()      # `.m` on receivers that are not module aliases
+        self.called_attrs = set()      # `.m` on receivers of unknown type
         self.taken_attrs = set()
+        self.self_called = set()       # `self.m` / `cls.m` / `super().m`
+        self.self_taken = set()
+        self.ctor_calls = []           # (dotted X, m) for `X(...).m(...)`
+        self.cls = None                # (qualname of the enclosing class) for methods
         self.called_alias = set()      # (our module, attr) reached through a module alias
         self.taken_alias = set()
         self.call_results = []         # dotted X for `X(...)(...)`
@@ -153,9 +169,13 @@ class Refs:
 
     def merge(self, o):
         self.called_names |= o.called_names
+        self.arg_names |= o.arg_names
         self.taken_names |= o.taken_names
         self.called_attrs |= o.called_attrs
         self.taken_attrs |= o.taken_attrs
+        self.self_called |= o.self_called
+        self.self_taken |= o.self_taken
+        self.ctor_calls += o.ctor_calls
         self.called_alias |= o.called_alias
         self.taken_alias |= o.taken_alias
         self.call_results += o.call_results
@@ -249,6 +269,8 @@ class ModuleInfo:
         nested = []
         todo = [(n, False) for n in reversed([n for n in nodes if n is not None])]
         called_ids = set()
+        skip_ids = set()
+        arg_ids = set()
         while todo:
             n, in_lambda = todo.pop()
             if isinstance(n, (ast.Import, ast.ImportFrom)):
@@ -280,9 +302,15 @@ class ModuleInfo:
                         r.exotic = True
                         last = None
                 elif isinstance(f, ast.Attribute):
-                    # method call on an arbitrary expression, e.g. CSSParser(...).process_selectors(...)
-                    called_ids.add(id(f))
+                    # method call on an arbitrary expression
                     last = f.attr
+                    recv = f.value
+                    if isinstance(recv, ast.Call) and dotted(recv.func) and dotted(recv.func) != ['super']:
+                        # X(...).m(...): typed when X is one of our classes
+                        r.ctor_calls.append((dotted(recv.func), f.attr))
+                        skip_ids.add(id(f))
+                    else:
+                        called_ids.add(id(f))
                 else:
                     r.exotic = True
                     last = None
@@ -290,6 +318,7 @@ class ModuleInfo:
                     for a in list(n.args) + [k.value for k in n.keywords]:
                         if isinstance(a, (ast.Name, ast.Attribute)):
                             called_ids.add(id(a))
+                            arg_ids.add(id(a))
             if isinstance(n, ast.Attribute) and isinstance(n.ctx, ast.Load):
                 called = id(n) in called_ids
                 d = dotted(n)
@@ -316,16 +345,28 @@ class ModuleInfo:
                             (r.called_attrs if called else r.taken_attrs).add(rest[-1])
                         break
                     continue
-                (r.called_attrs if called else r.taken_attrs).add(n.attr)
+                v = n.value
+                is_self = (isinstance(v, ast.Name) and v.id in ('self', 'cls')) or (
+                    isinstance(v, ast.Call) and isinstance(v.func, ast.Name) and v.func.id == 'super')
+                if id(n) in skip_ids:
+                    pass
+                elif is_self:
+                    (r.self_called if called else r.self_taken).add(n.attr)
+                else:
+                    (r.called_attrs if called else r.taken_attrs).add(n.attr)
             elif isinstance(n, ast.Name) and isinstance(n.ctx, ast.Load):
-                (r.called_names if id(n) in called_ids else r.taken_names).add(n.id)
+                if id(n) in arg_ids:
+                    r.arg_names.add(n.id)      # passed to a call that may call it back
+                else:
+                    (r.called_names if id(n) in called_ids else r.taken_names).add(n.id)
             todo.extend((c, in_lambda) for c in reversed(list(ast.iter_child_nodes(n))))
         return r, nested
 
     def header_nodes(self, fn):
         """Expressions of a def statement that are evaluated when the def statement runs."""
         a = fn.args
-        nodes = list(fn.decorator_list) + list(a.defaults) + [k for k in a.kw_defaults if k is not None]
+        nodes = [apply_decorator(d) for d in fn.decorator_list]
+        nodes += list(a.defaults) + [k for k in a.kw_defaults if k is not None]
         if not self.future_annotations:
             for arg in a.posonlyargs + a.args + a.kwonlyargs + [a.vararg, a.kwarg]:
                 if arg is not None and arg.annotation is not None and not isinstance(arg.annotation, ast.Constant):
@@ -367,9 +408,10 @@ class ModuleInfo:
         self.local_imports = []
         self.decorators = {}
 
-        def add_fn(qual, fn, outer_locals):
+        def add_fn(qual, fn, outer_locals, cls=None):
             aliases, li = self.local_aliases(fn)
             r, nested = self.refs_of(fn.body, aliases, now=False)
+            r.cls = cls
             r.local_fns = dict(outer_locals)
             for nf in nested:
                 r.local_fns[nf.name] = qual + '.<locals>.' + nf.name
@@ -387,14 +429,14 @@ class ModuleInfo:
             for kind, m, a, ln in li:
                 self.local_imports.append((qual, kind, m, a, ln))
             for nf in nested:
-                add_fn(qual + '.<locals>.' + nf.name, nf, r.local_fns)
+                add_fn(qual + '.<locals>.' + nf.name, nf, r.local_fns, cls)
 
         def add_class(qual, cls):
             methods = {}
             for st in cls.body:
                 if isinstance(st, (ast.FunctionDef, ast.AsyncFunctionDef)):
                     methods[st.name] = qual + '.' + st.name
-                    add_fn(qual + '.' + st.name, st, {})
+                    add_fn(qual + '.' + st.name, st, {}, qual)
                 elif isinstance(st, ast.ClassDef):
                     add_class(qual + '.' + st.name, st)
             self.classes[qual] = dict(methods=methods, bases=[dotted(b) for b in cls.bases if dotted(b)],
@@ -488,6 +530,10 @@ class Extractor:
                     return
                 pending.append(m)
                 ev.append(('importMod', m))
+                # `from M import ...` makes importlib probe M (hasattr): a module-level __getattr__ of M runs
+                probe = Refs()
+                probe.called_alias.add((m, '__getattr__'))
+                ev.append(('call', probe, st.lineno))
             for al in st.names:
                 if al.name == '*':
                     if ours:
@@ -516,7 +562,8 @@ class Extractor:
                 rb, _ = mi.refs_of(list(st.bases), mi.aliases, now=True)
                 for m, a, ln in rb.uses:
                     ev.append(('useAttr', m, a, False, ln))
-                rd, _ = mi.refs_of(list(st.decorator_list) + [k.value for k in st.keywords], mi.aliases, now=True)
+                rd, _ = mi.refs_of([apply_decorator(d) for d in st.decorator_list] + [k.value for k in st.keywords],
+                                   mi.aliases, now=True)
                 for m, a, ln in rd.uses:
                     ev.append(('useAttr', m, a, False, ln))
                 seed = Refs()
@@ -666,7 +713,10 @@ class Extractor:
         """Like resolve, but a bare name may be a nested function visible from the code `r`."""
         if len(parts) == 1 and parts[0] in r.local_fns:
             return ('fn', mn, r.local_fns[parts[0]])
-        return self.resolve(mn, parts)
+        key = (mn, tuple(parts))
+        if key not in self.resolve_cache:
+            self.resolve_cache[key] = self.resolve(mn, parts)
+        return self.resolve_cache[key]
 
     def opaque_name(self, mn, r, name):
         """A bare name that certainly does not denote one of our functions: builtin, opaque import, module alias."""
@@ -677,24 +727,24 @@ class Extractor:
             return not self.finder.is_ours(mi.from_names[name][0])
         if name in mi.aliases:
             return True
-        # names bound by `import x` / `import x.y as z` of opaque modules
-        if name in self.opaque_imports.setdefault(mn, self._opaque_imports(mi)):
+        if mn not in self.opaque_imports:
+            out = set()
+            for n in ast.walk(mi.tree):
+                if isinstance(n, ast.Import):
+                    for al in n.names:
+                        out.add(al.asname or al.name.split('.')[0])
+            self.opaque_imports[mn] = out - set(mi.aliases)
+        if name in self.opaque_imports[mn]:
             return True
         return name in BUILTIN_NAMES
-
-    @staticmethod
-    def _opaque_imports(mi):
-        out = set()
-        for n in ast.walk(mi.tree):
-            if isinstance(n, ast.Import):
-                for al in n.names:
-                    out.add(al.asname or al.name.split('.')[0])
-        return out - set(mi.aliases)
 
     SUBCLASS_HOOKS = ('__init_subclass__', '__class_getitem__', '__mro_entries__', '__set_name__')
 
     def ancestors(self, mn, q):
-        """The class (module, qualname) and every base class of it that is one of ours."""
+        """The class (module, qualname) and every base class of it that is one of ours (cached)."""
+        key = (mn, q)
+        if key in self.anc_cache:
+            return self.anc_cache[key]
         seen = []
         stack = [(mn, q)]
         while stack:
@@ -704,10 +754,39 @@ class Extractor:
             seen.append(c)
             info = self.mods[c[0]].classes[c[1]]
             for b in info['bases'] + info['meta']:
-                t = self.resolve(c[0], b)
+                t = self.resolve_in(c[0], self.no_refs, b)
                 if t and t[0].startswith('class'):
                     stack.append((t[1], t[2]))
+        self.anc_cache[key] = seen
         return seen
+
+    def family(self, mn, q):
+        """Ancestors and descendants of a class: where `self.m` of a method of that class may dispatch."""
+        key = (mn, q)
+        if key not in self.fam_cache:
+            fam = list(self.ancestors(mn, q))
+            for dm, mi in self.mods.items():
+                for dq in mi.classes:
+                    if (mn, q) in self.ancestors(dm, dq) and (dm, dq) not in fam:
+                        fam.append((dm, dq))
+            self.fam_cache[key] = fam
+        return self.fam_cache[key]
+
+    def method_in(self, classes, name):
+        out = set()
+        for (cm_, q) in classes:
+            fq = self.mods[cm_].classes[q]['methods'].get(name)
+            if fq:
+                out.add((cm_, fq))
+        return out
+
+    def dunders(self, c):
+        out = set()
+        for (cm_, q) in self.ancestors(*c):
+            for m, fq in self.mods[cm_].classes[q]['methods'].items():
+                if m.startswith('__') and m.endswith('__'):
+                    out.add((cm_, fq))
+        return out
 
     def returned_fns(self, f):
         """Functions a function of ours may return by name."""
@@ -723,11 +802,12 @@ class Extractor:
         return out
 
     def wrappers_of(self, f):
-        """What runs *instead of / around* a decorated function when it is called: the functions returned by
-        our decorators (`@D` -> returns(D); `@D(...)` -> returns(returns(D)))."""
+        """What runs around a decorated function when it is called: the functions returned by our decorators
+        (`@D` -> returns(D); `@D(...)` -> returns(returns(D)))."""
+        if f in self.wrap_cache:
+            return self.wrap_cache[f]
         mn, q = f
         out = set()
-        dummy = Refs()
         for d in self.mods[mn].decorators.get(q, []):
             depth = 1
             e = d
@@ -737,7 +817,7 @@ class Extractor:
             dd = dotted(e)
             if not dd:
                 continue
-            t = self.resolve_in(mn, dummy, dd)
+            t = self.resolve_in(mn, self.no_refs, dd)
             if not t or t[0] != 'fn':
                 continue
             level = {(t[1], t[2])}
@@ -747,126 +827,202 @@ class Extractor:
                     nxt |= self.returned_fns(g_)
                 level = nxt
             out |= level
+        self.wrap_cache[f] = out
         return out
 
-    def analyse(self, mn, r):
-        """called functions, taken functions, instantiated classes, merely mentioned classes, called / taken
-        attribute names, exotic?"""
-        called, taken, classes, taken_classes = set(), set(), set(), set()
+    def summary(self, mn, r):
+        """What running the code `r` of module mn does, as far as names tell (cached per Refs object):
+        direct   functions certainly named as callees (by name, through a module alias, Class.method, X(...).m,
+                 self.m / cls.m / super().m within the class family, functions returned by called factories,
+                 subclass hooks of base classes)
+        inst     classes instantiated (their dunder methods are in `direct`)
+        taken    functions mentioned but not called here;  tclasses  classes mentioned but not called here
+        ucalled / utaken   attribute names called / loaded on receivers of unknown type
+        exotic   a callee that cannot be named at all (parameter, local variable, subscript, ...)"""
+        key = id(r)
+        if key in self.sum_cache:
+            return self.sum_cache[key]
+        direct, inst, taken, tclasses = set(), set(), set(), set()
         exotic = r.exotic
 
-        def add(t, dest):
+        def add(t, is_call):
             if t is None:
                 return
             if t[0] == 'fn':
-                dest.add((t[1], t[2]))
+                (direct if is_call else taken).add((t[1], t[2]))
             elif t[0] == 'class+fn' and t[3]:
-                # Class.method mentioned: the class is merely mentioned, the method is called / taken
-                taken_classes.add((t[1], t[2]))
-                dest.add((t[1], t[3]))
-            elif dest is called:
-                classes.add((t[1], t[2]))          # Class(...): instantiated
+                tclasses.add((t[1], t[2]))
+                (direct if is_call else taken).add((t[1], t[3]))
+            elif is_call:
+                inst.add((t[1], t[2]))
             else:
-                taken_classes.add((t[1], t[2]))    # isinstance(x, Class), bound=Class, ...: only mentioned
+                tclasses.add((t[1], t[2]))
 
         for n in r.called_names:
             t = self.resolve_in(mn, r, [n])
-            add(t, called)
+            add(t, True)
             if t is None and not self.opaque_name(mn, r, n):
-                exotic = True          # a parameter / local variable holding some callable
+                exotic = True
+        for n in r.arg_names:
+            t = self.resolve_in(mn, r, [n])
+            # a function handed to a call may be called back; a class handed to a call is only mentioned
+            add(t, bool(t) and t[0] != 'class')
         for n in r.taken_names:
-            add(self.resolve_in(mn, r, [n]), taken)
+            add(self.resolve_in(mn, r, [n]), False)
         for (m, a) in r.called_alias:
-            add(self.resolve(m, [a]), called)
+            add(self.resolve_in(m, self.no_refs, [a]), True)
         for (m, a) in r.taken_alias:
-            add(self.resolve(m, [a]), taken)
+            add(self.resolve_in(m, self.no_refs, [a]), False)
+        ucalled, utaken = set(r.called_attrs), set(r.taken_attrs)
         for d in r.call_results:
             t = self.resolve_in(mn, r, d)
             if t and t[0] == 'fn':
-                called |= self.returned_fns((t[1], t[2]))
+                direct |= self.returned_fns((t[1], t[2]))
             elif t:
-                classes.add((t[1], t[2]))     # instance of our class being called: its __call__ is a dunder
-            elif not (len(d) >= 1 and (self.opaque_name(mn, r, d[0]) or d[0] in ('self', 'cls'))):
+                inst.add((t[1], t[2]))
+                ucalled.add('__call__')
+            elif not (self.opaque_name(mn, r, d[0]) or d[0] in ('self', 'cls')):
                 exotic = True
+        for d, m in r.ctor_calls:
+            t = self.resolve_in(mn, r, d)
+            if t and t[0] == 'class':
+                inst.add((t[1], t[2]))
+                direct |= self.method_in(self.ancestors(t[1], t[2]), m)
+            else:
+                if t and t[0] == 'fn':
+                    direct.add((t[1], t[2]))
+                elif t is None and not (self.opaque_name(mn, r, d[0]) or d[0] in ('self', 'cls')):
+                    exotic = True
+                ucalled.add(m)
+        if r.cls is not None:
+            fam = self.family(mn, r.cls)
+            for a in r.self_called:
+                hit = self.method_in(fam, a)
+                direct |= hit
+                if not hit:
+                    ucalled.add(a)      # an attribute holding some object / callable
+            for a in r.self_taken:
+                for f in self.method_in(fam, a):
+                    # a property (or otherwise decorated method) runs on attribute access
+                    (direct if self.mods[f[0]].decorators.get(f[1]) else taken).add(f)
+        else:
+            ucalled |= r.self_called
+            utaken |= r.self_taken
         for b in r.subclass_bases:
-            t = self.resolve(mn, b)
+            t = self.resolve_in(mn, self.no_refs, b)
             if t and t[0].startswith('class'):
-                for (cm_, q) in self.ancestors(t[1], t[2]):
-                    for h in self.SUBCLASS_HOOKS:
-                        fq = self.mods[cm_].classes[q]['methods'].get(h)
-                        if fq:
-                            called.add((cm_, fq))
-        return called, taken, classes, taken_classes, set(r.called_attrs), set(r.taken_attrs), exotic
+                for h in self.SUBCLASS_HOOKS:
+                    direct |= self.method_in(self.ancestors(t[1], t[2]), h)
+        for c in inst:
+            direct |= self.dunders(c)
+        res = (direct, inst, taken, tclasses, ucalled, utaken, exotic)
+        self.sum_cache[key] = res
+        return res
 
     def expand_calls(self):
         mods = self.mods
-        self.opaque_imports = {}
+        self.opaque_imports, self.resolve_cache, self.anc_cache, self.fam_cache = {}, {}, {}, {}
+        self.wrap_cache, self.sum_cache = {}, {}
+        self.no_refs = Refs()
+        by_name = {}      # method name -> [(class, function)]
+        for mn, mi in mods.items():
+            for q, c in mi.classes.items():
+                for m, fq in c['methods'].items():
+                    by_name.setdefault(m, []).append(((mn, q), (mn, fq)))
 
-        def is_dunder(m):
-            return m.startswith('__') and m.endswith('__')
+        seeds = [(mn, e[1], e[2]) for mn in self.order for e in mods[mn].events if e[0] == 'call']
+        # functions / classes mentioned (not called) by module-level and class-level code anywhere: tables of
+        # handlers and the like, callable later through an unnamed callee
+        T_mod, TC_mod = {}, {}
+        for mn, r, ln in seeds:
+            _, _, taken, tclasses, _, _, _ = self.summary(mn, r)
+            T_mod.setdefault(mn, set()).update(taken)
+            TC_mod.setdefault(mn, set()).update(tclasses)
 
-        # instantiated classes; functions whose address is taken in reachable code; classes merely mentioned there
-        I, T, TC = set(), set(), set()
+        I_glob = set()    # classes instantiated by import-time code of any statement (with their ancestors)
 
-        def callees(mn, r):
-            """Functions that may start running while the code `r` of module mn runs; updates I and T."""
-            called, taken, classes, taken_classes, cattrs, tattrs, exotic = self.analyse(mn, r)
-            out = set(called)
-            TC.update(taken_classes)
-            if exotic:
-                classes = classes | TC       # an unnamed callee may be any class mentioned so far
-            for c in classes:
-                for a in self.ancestors(*c):
-                    I.add(a)
-                    for m, fq in mods[a[0]].classes[a[1]]['methods'].items():
-                        if is_dunder(m):
-                            out.add((a[0], fq))
-            T.update(taken)
-            for (cm_, q) in I:
-                ms = mods[cm_].classes[q]['methods']
-                for a in cattrs:
-                    if a in ms:
-                        out.add((cm_, ms[a]))
-                for a in tattrs:
-                    if a in ms:
-                        # a property (or otherwise decorated method) runs on attribute access
-                        if mods[cm_].decorators.get(ms[a]):
-                            out.add((cm_, ms[a]))
-                        else:
-                            T.add((cm_, ms[a]))
-            if exotic:
-                out |= T
-            return out
+        def reach(mn, r):
+            """Functions that may run while the import-time expression `r` of module mn is evaluated."""
+            R, I, T, TC = set(), set(), set(), set()
+            UC, UT = set(), set()
+            exotic = False
+            exotic_mods = set()     # modules whose code makes a call through an unnamed callee
+            work = []
 
-        def callees_of_fn(f):
-            return callees(f[0], mods[f[0]].funcs[f[1]]) | self.wrappers_of(f)
+            def absorb(smn, sr):
+                nonlocal exotic
+                direct, inst, taken, tclasses, ucalled, utaken, ex_ = self.summary(smn, sr)
+                for f in direct:
+                    if f not in R:
+                        R.add(f); work.append(f)
+                for c in inst:
+                    I.update(self.ancestors(*c))
+                T.update(taken); TC.update(tclasses)
+                UC.update(ucalled); UT.update(utaken)
+                if ex_:
+                    exotic = True
+                    exotic_mods.add(smn)
 
-        def reach(seeds):
-            seen = set()
-            stack = list(seeds)
-            while stack:
-                f = stack.pop()
-                if f in seen or f[1] not in mods[f[0]].funcs:
-                    continue
-                seen.add(f)
-                stack.extend(callees_of_fn(f))
-            return seen
+            absorb(mn, r)
+            while True:
+                while work:
+                    f = work.pop()
+                    if f[1] in mods[f[0]].funcs:
+                        absorb(f[0], mods[f[0]].funcs[f[1]])
+                        for w in self.wrappers_of(f):
+                            if w not in R:
+                                R.add(w); work.append(w)
+                # receivers of unknown type: any class that may have an instance by now
+                live = I | I_glob
+                if exotic:
+                    # an unnamed callee may be anything mentioned (not called) by the code reached from this
+                    # statement, or by the module-level code of the modules that make such calls
+                    tc, tf = set(TC), set(T)
+                    for m_ in exotic_mods:
+                        tc |= TC_mod.get(m_, set())
+                        tf |= T_mod.get(m_, set())
+                    for c in tc - I:
+                        I.update(self.ancestors(*c))
+                        for f in self.dunders(c):
+                            if f not in R:
+                                R.add(f); work.append(f)
+                    for f in tf:
+                        if f not in R:
+                            R.add(f); work.append(f)
+                    live = I | I_glob
+                for a in UC:
+                    for c, f in by_name.get(a, ()):
+                        if c in live and f not in R:
+                            R.add(f); work.append(f)
+                for a in UT:
+                    for c, f in by_name.get(a, ()):
+                        if c in live:
+                            if mods[f[0]].decorators.get(f[1]):
+                                if f not in R:
+                                    R.add(f); work.append(f)
+                            else:
+                                T.add(f)
+                if not work:
+                    break
+            return {f for f in R if f[1] in mods[f[0]].funcs}, I
 
-        # iterate until I and T are stable (they only grow)
+        results = {}
         while True:
-            size = (len(I), len(T), len(TC))
-            R = set()
-            for mn in self.order:
-                for e in mods[mn].events:
-                    if e[0] == 'call':
-                        R |= reach(callees(mn, e[1]))
-            if (len(I), len(T), len(TC)) == size:
+            size = len(I_glob)
+            for k, (mn, r, ln) in enumerate(seeds):
+                fs, inst = reach(mn, r)
+                results[k] = fs
+                I_glob |= inst
+            if len(I_glob) == size:
                 break
-        self.reachable_functions = sorted(R)
-        self.instantiated = sorted(I)
-        self.taken = sorted(T)
+        R_all = set()
+        for fs in results.values():
+            R_all |= fs
+        self.reachable_functions = sorted(R_all)
+        self.instantiated = sorted(I_glob)
 
         self.called_into = {}
+        k = 0
         for mn in self.order:
             mi = mods[mn]
             new = []
@@ -875,7 +1031,8 @@ class Extractor:
                 if e[0] != 'call':
                     new.append(e)
                     continue
-                fs = reach(callees(mn, e[1]))
+                fs = results[k]
+                k += 1
                 for (m, a, ln) in e[1].lambda_uses:
                     if (m, a) not in emitted:
                         emitted.add((m, a))
@@ -967,61 +1124,99 @@ def extract(repo=REPO):
     return ex
 
 
+ENTRY_NAMES = [('bs4', 'bs4'), ('bs4Element', 'bs4.element'), ('soupsieve', 'soupsieve'),
+               ('cssMatch', 'soupsieve.css_match'), ('cssParser', 'soupsieve.css_parser'),
+               ('cssTypes', 'soupsieve.css_types'), ('beautifulSoup', 'BeautifulSoup')]
+
+
 def render(ex):
+    """Names are interned: id k < #modules is the k-th module of the graph, the other ids are attribute names in
+    order of first occurrence. `names` gives the string of every id."""
+    ids = {}
+    table = []
+
+    def intern(sname):
+        if sname not in ids:
+            ids[sname] = len(table)
+            table.append(sname)
+        return ids[sname]
+
+    for name in ex.order:
+        intern(name)
+    all_ = dunder_all(ex.mods['soupsieve'].tree)
+    if all_ is None:
+        all_ = ['<__all__ is not a literal sequence of strings>']
+    for _, sname in ENTRY_NAMES:
+        intern(sname)
+    for x in all_:
+        intern(x)
+
     L = [
         '/- GENERATED by gen/gen_imports.py from the source text (ast) of /repo/soupsieve/*.py and of the bs4',
-        '   modules reachable through import statements. Do not edit. -/',
+        '   modules reachable through import statements. Do not edit.',
+        '   Names are numbers: `names[k]` is the text of name k; k < graph.length is the k-th module. -/',
         'import SoupVerif.Model.Imports',
         'namespace SoupVerif.Gen.Imports',
         'open SoupVerif.Imports',
         'set_option maxRecDepth 100000',
         '',
     ]
-    names = []
+    blocks = []
     for name in ex.order:
         mi = ex.mods[name]
         ident = 'ev_' + name.replace('.', '_')
-        names.append((name, ident, mi))
-        L.append(f'/-- `{name}` ({os.path.basename(os.path.dirname(mi.path))}/{os.path.basename(mi.path)}); '
-                 f'postponed annotations: {mi.future_annotations}. -/')
         rows = []
         for e in mi.events:
             if e[0] == 'importMod':
-                rows.append(f'.importMod {lean_str(e[1])}')
+                rows.append((f'.importMod {intern(e[1])}', f'import {e[1]}'))
             elif e[0] == 'fromImport':
-                rows.append(f'.fromImport {lean_str(e[1])} {lean_str(e[2])}')
+                rows.append((f'.fromImport {intern(e[1])} {intern(e[2])}', f'from {e[1]} import {e[2]}'))
             elif e[0] == 'useAttr':
-                rows.append(f'.useAttr {lean_str(e[1])} {lean_str(e[2])} {"true" if e[3] else "false"}')
+                rows.append((f'.useAttr {intern(e[1])} {intern(e[2])} {"true" if e[3] else "false"}',
+                             f'{e[1]}.{e[2]}' + (f'   (in a function that may run at import time, line {e[4]})'
+                                                if e[3] else f'   (line {e[4]})')))
             elif e[0] == 'define':
-                rows.append(f'.define {lean_str(e[1])}')
+                rows.append((f'.define {intern(e[1])}', f'{e[1]} = ...'))
             elif e[0] == 'unknown':
-                rows.append(f'.unknown {lean_str(e[1])}')
+                rows.append((f'.unknown {lean_str(e[1])}', 'NOT TRANSLATED'))
             else:
                 raise RuntimeError(f'unexpanded event {e!r}')
-        L.append(f'def {ident} : List Event := [')
-        L.append(',\n'.join('  ' + r for r in rows))
-        L.append(']')
-        L.append('')
-    L.append('/-- Every bs4 / soupsieve module reachable through import statements, parents before children. '
-             '`parent`/`leaf` split the dotted name (`parent = ""` for a top-level package). -/')
+        blk = [f'/-- `{name}` ({os.path.basename(os.path.dirname(mi.path))}/{os.path.basename(mi.path)}); '
+               f'postponed annotations: {mi.future_annotations}. -/',
+               f'def {ident} : List Event := [']
+        for k, (term, comment) in enumerate(rows):
+            sep = ',' if k + 1 < len(rows) else ''
+            blk.append(f'  {term}{sep}  -- {comment}')
+        blk.append(']')
+        blk.append('')
+        blocks.append((name, ident, blk))
+    for _, _, blk in blocks:
+        L += blk
+    L.append('/-- Every bs4 / soupsieve module reachable through import statements, parents before children; the '
+             'k-th node is module k. `parent` is the id of the parent package (`none` for a top-level package), '
+             '`leaf` the id of the last component of the dotted name. -/')
     items = []
-    for name, ident, mi in names:
+    for name, ident, _ in blocks:
         parent, _, leaf = name.rpartition('.')
-        items.append(f'  {{ name := {lean_str(name)}, parent := {lean_str(parent)}, leaf := {lean_str(leaf)}, '
-                     f'events := {ident} }}')
-    L.append('def graph : Graph := [\n' + ',\n'.join(items) + '\n]')
+        p = f'some {ids[parent]}' if parent else 'none'
+        items.append(f'  {{ name := {ids[name]}, parent := {p}, leaf := {intern(leaf)}, events := {ident} }}'
+                     f'{"," if name != blocks[-1][0] else ""}  -- {name}')
+    L.append('def graph : Graph := [\n' + '\n'.join(items) + '\n]')
     L.append('')
-    all_ = dunder_all(ex.mods['soupsieve'].tree)
-    L.append('/-- `soupsieve.__all__` (what `from soupsieve import *` fetches). An unreadable `__all__` is emitted as a '
-             'name that is never defined. -/')
-    if all_ is None:
-        all_ = ['<__all__ is not a literal sequence of strings>']
-    L.append('def soupsieveAll : List String := [' + ', '.join(lean_str(x) for x in all_) + ']')
+    L.append('/-- Ids of the names the entry points mention, and `soupsieve.__all__` (what `from soupsieve import *` '
+             'fetches; an unreadable `__all__` is emitted as a name that is never defined). -/')
+    fields = ', '.join(f'{f} := {ids[sname]}' for f, sname in ENTRY_NAMES)
+    L.append(f'def entryIds : EntryIds := {{ {fields},\n    all := [{", ".join(str(ids[x]) for x in all_)}] }}')
+    L.append('')
+    L.append('/-- What `entryIds` is supposed to denote. -/')
+    L.append('def entryIdNames : List (Nat × String) := [' +
+             ', '.join(f'({ids[sname]}, {lean_str(sname)})' for _, sname in ENTRY_NAMES) + ']')
+    L.append('def soupsieveAllNames : List String := [' + ', '.join(lean_str(x) for x in all_) + ']')
     L.append('')
     outs = []
-    for name, ident, mi in names:
+    for name in ex.order:
         if name.split('.')[0] == 'soupsieve':
-            outs += [f'{name}:{c}' for c in output_calls(mi.tree)]
+            outs += [f'{name}:{c}' for c in output_calls(ex.mods[name].tree)]
     L.append('/-- Import-time calls of print / warnings.warn / sys.stdout.write / logging.* at module or class level '
              'of the soupsieve modules. -/')
     L.append('def importTimeOutput : List String := [' + ', '.join(lean_str(x) for x in outs) + ']')
@@ -1044,9 +1239,15 @@ def render(ex):
     L.append('/-- Statements left out on purpose (module, line: reason). -/')
     sk = []
     for name in ex.order:
-        for s in ex.mods[name].skipped:
-            sk.append(f'({lean_str(name)}, {lean_str(s)})')
+        for s_ in ex.mods[name].skipped:
+            sk.append(f'({lean_str(name)}, {lean_str(s_)})')
     L.append('def skipped : List (String × String) := [\n  ' + ',\n  '.join(sk) + ']')
+    L.append('')
+    L.append('/-- The text of every name, by id. -/')
+    rows = []
+    for k in range(0, len(table), 8):
+        rows.append('  ' + ', '.join(lean_str(x) for x in table[k:k + 8]))
+    L.append('def names : List String := [\n' + ',\n'.join(rows) + '\n]')
     L.append('')
     L.append('end SoupVerif.Gen.Imports')
     return '\n'.join(L) + '\n'
